@@ -21,10 +21,10 @@ import (
 // C11: event fields -> message, against a reference decoder written from the statement.
 
 type valSpec struct {
-	T    string `json:"t"`    // U256 | ByteVec | Bool | I256 | Address | nil
-	Tag  string `json:"tag"`  // the "type" tag carried in the JSON value ("" = the right one)
-	Num  string `json:"num"`  // decimal string for numeric kinds
-	Len  int    `json:"len"`  // byte length for ByteVec
+	T    string `json:"t"`   // U256 | ByteVec | Bool | I256 | Address | nil
+	Tag  string `json:"tag"` // the "type" tag carried in the JSON value ("" = the right one)
+	Num  string `json:"num"` // decimal string for numeric kinds
+	Len  int    `json:"len"` // byte length for ByteVec
 	Seed uint64 `json:"seed"`
 	Raw  string `json:"raw"` // if set: used verbatim as the hex string of a ByteVec
 }
@@ -402,8 +402,8 @@ func TestVerif_C11_Attest(t *testing.T) {
 		govIn := &vh.Interp{C: ct, File: gov, Fields: map[string]vh.RVal{"messageFee": vh.U(0), "ALPH": []byte{}, "callerContractId!": bridgeId}}
 		tbIn := &vh.Interp{C: ct, File: tb, Fields: map[string]vh.RVal{"localChainId": vh.U(255), "sendSequence": vh.U(c.Seq), "governance": []byte("gov")}}
 		tbIn.Stubs = map[string]func([]vh.RVal) ([]vh.RVal, error){
-			"tokenRemaining!":   func([]vh.RVal) ([]vh.RVal, error) { return []vh.RVal{vh.U(1)}, nil },
-			"nextSendSequence":  func([]vh.RVal) ([]vh.RVal, error) { return []vh.RVal{vh.U(c.Seq)}, nil },
+			"tokenRemaining!":          func([]vh.RVal) ([]vh.RVal, error) { return []vh.RVal{vh.U(1)}, nil },
+			"nextSendSequence":         func([]vh.RVal) ([]vh.RVal, error) { return []vh.RVal{vh.U(c.Seq)}, nil },
 			"governance.getMessageFee": func([]vh.RVal) ([]vh.RVal, error) { return []vh.RVal{vh.U(0)}, nil },
 			"governance.publishWormholeMessage": func(a []vh.RVal) ([]vh.RVal, error) {
 				_, err := govIn.Call("publishWormholeMessage", a...)
